@@ -330,28 +330,40 @@ def _argmin(eng, st, args, kwargs, node):
 		yield s2, r
 
 
+LEXRANK = z3.Function('lexrank', z3.ArraySort(I, R), I, I, I)   # lexrank(d, n, k): position of index k when 0..n-1 is ordered by (d[k], k)
+
+
+def lexrank_axioms(d, n):
+	"""lexrank(d, n, .) is THE order isomorphism from (0..n-1, lexicographic order on (d[k], k)) onto 0..n-1"""
+	i, k = z3.Int(fresh_name('i')), z3.Int(fresh_name('k'))
+	rk = lambda x: LEXRANK(d, n, x)
+	lt = lambda x, y: z3.Or(z3.Select(d, x) < z3.Select(d, y), z3.And(z3.Select(d, x) == z3.Select(d, y), x < y))
+	return z3.And(
+		z3.ForAll([k], z3.Implies(z3.And(0 <= k, k < n), z3.And(0 <= rk(k), rk(k) < n)), patterns=[rk(k)]),
+		z3.ForAll([i, k], z3.Implies(z3.And(0 <= i, i < n, 0 <= k, k < n), lt(i, k) == (rk(i) < rk(k))), patterns=[z3.MultiPattern(rk(i), rk(k))]))
+
+
 @lib('numpy.argsort')
 def _argsort(eng, st, args, kwargs, node):
 	"""a permutation of 0..n-1 that sorts the values in non-decreasing order.  The default kind ('quicksort') is
 	documented as NOT stable: nothing is promised about the order of equal values.  kind='stable' (or 'mergesort')
-	additionally orders equal values by index."""
+	orders equal values by index, i.e. the result is THE permutation sorting by (value, index): result[lexrank(k)] = k."""
 	d = _realvec(st, args[0])
 	kind = kwargs.get('kind', args[2] if len(args) > 2 else None)
 	n = d.length
 	r = mk_ndarray(st, 'argsort', DType('i', 8), length=n, ref=False, constrain=False)
-	inv = z3.Function(fresh_name('rank'), I, I)
 	p, q, j = z3.Int(fresh_name('p')), z3.Int(fresh_name('q')), z3.Int(fresh_name('j'))
-	st.assume(z3.ForAll([j], z3.Implies(z3.And(0 <= j, j < n), z3.And(0 <= r.at(j), r.at(j) < n, inv(r.at(j)) == j))))
-	st.assume(z3.ForAll([j], z3.Implies(z3.And(0 <= j, j < n), z3.And(0 <= inv(j), inv(j) < n, r.at(inv(j)) == j)),
-	                    patterns=[inv(j), z3.Select(d.arr, j)]))   # (also triggered by a look-up of d[j])
-	st.assume(z3.ForAll([p, q], z3.Implies(z3.And(0 <= p, p < q, q < n), z3.Select(d.arr, r.at(p)) <= z3.Select(d.arr, r.at(q)))))
 	if kind in ('stable', 'mergesort'):
-		st.assume(z3.ForAll([p, q], z3.Implies(z3.And(0 <= p, p < q, q < n, z3.Select(d.arr, r.at(p)) == z3.Select(d.arr, r.at(q))), r.at(p) < r.at(q))))
-		# consequence (stated for the solver's benefit): the first entry is the first minimum
-		st.assume(z3.Implies(n > 0, z3.And(
-			z3.ForAll([j], z3.Implies(z3.And(0 <= j, j < n), z3.Select(d.arr, r.at(0)) <= z3.Select(d.arr, j))),
-			z3.ForAll([j], z3.Implies(z3.And(0 <= j, j < r.at(0)), z3.Select(d.arr, r.at(0)) < z3.Select(d.arr, j))))))
-	elif kind not in (None, 'quicksort', 'heapsort'):
+		rk = lambda x: LEXRANK(d.arr, n, x)
+		st.assume(lexrank_axioms(d.arr, n))
+		st.assume(z3.ForAll([j], z3.Implies(z3.And(0 <= j, j < n), z3.And(0 <= r.at(j), r.at(j) < n, rk(r.at(j)) == j)), patterns=[r.at(j)]))
+		st.assume(z3.ForAll([j], z3.Implies(z3.And(0 <= j, j < n), r.at(rk(j)) == j), patterns=[rk(j)]))
+	elif kind in (None, 'quicksort', 'heapsort'):
+		inv = z3.Function(fresh_name('rank'), I, I)
+		st.assume(z3.ForAll([j], z3.Implies(z3.And(0 <= j, j < n), z3.And(0 <= r.at(j), r.at(j) < n, inv(r.at(j)) == j))))
+		st.assume(z3.ForAll([j], z3.Implies(z3.And(0 <= j, j < n), z3.And(0 <= inv(j), inv(j) < n, r.at(inv(j)) == j))))
+		st.assume(z3.ForAll([p, q], z3.Implies(z3.And(0 <= p, p < q, q < n), z3.Select(d.arr, r.at(p)) <= z3.Select(d.arr, r.at(q)))))
+	else:
 		raise Unsupported(f'argsort kind {kind!r}')
 	ref = Ref('ndarray')
 	st.heap[ref.addr] = r
